@@ -3,34 +3,56 @@
  *
  * One case per input line (all integers except the two names):
  *   id site kind scaling npc_req npc rank rlo noise cblk ex nr nc <nr*nc numerators> ny <nr*ny response numerators> nb <nb block widths>
- *   value of a cell = numerator / 2^ex (dyadic, exact in binary floating point)
+ *      nproc den sc offl yex yden yoffl hist pred
+ *   value of a cell = numerator / den / 2^ex + 2^offl * (1 + column mod 3)   (den = 1: dyadic, exact in binary floating point; den in
+ *      {3, 10, 1000}: the nearest double of a non-representable constant, class K5; offl = 0: no offset; ex may be negative = scale up;
+ *      sc = the part of ex that is a whole-input scale, class K4: residuals are taken relative to max(2^-sc, max|X_c|))
+ *   response cell = numerator / yden / 2^yex + (yoffl ? 2^yoffl : 0)
+ *   nproc = processor count forced through hook H2 (and passed as `nthreads` to KMeans / LeaveOneOut), class K6
+ *   hist  = 1: two other fits of the same routine (other data of the same shape, then another shape) run first IN THE SAME PROCESS, class K7;
+ *           `hdev` of the Done line = number of output doubles that differ (bitwise) from the same fit made by a fresh process (grandchild)
  *   site: PCA | PLS | CPCA (NIPALS loops, hook H4)  |  MLRLOO | KMEANS | NM (run under the wall-clock watchdog only)
  * Every case runs in a forked child with the iteration hook H4 installed.  Events (one JSON object per line):
- *   Reset{id,site,kind,rank,rlo,npc,noise,cblk}      start of a case (exact rank etc. as computed by TLC, passed through)
+ *   Reset{id,site,kind,rank,rlo,npc,noise,cblk,nproc,offl,sc,den,hist,nr,nc}   start of a case (exact rank etc. as computed by TLC, passed through)
  *   Start{site,pc,tcls}                              first pass of component pc: class of the start vector
  *   Iter{site,pc,it,a,b,conv}                        pass `it` of component pc: classes of t't (u'u), of the normaliser, of the convergence value
  *                                                     (passes 1..3 and the last pass of every component are logged)
  *   Null{site,pc}                                    component pc was returned without a single pass (null-component guard)
- *   Done{site,evals[],fin,ortho,recon,vsum,vgap,bvar} the fit returned: per component "pos"|"zero"|"nan", ledger residuals (1e-12 / 1e-9 units, -1 = not applicable)
+ *   Done{site,evals[],vx[],nf[],fin,ortho,recon,vsum,vgap,bvar} the fit returned: per component explained variance vx (1e-12 percent units, saturating) and
+ *                                                     non-finite flag nf - TLC classifies them ("pos"|"zero"|"nan") with the threshold of the spec; `evals` is the
+ *                                                     harness's own reading (fixed 1e-9 %) used for routing only; ledger residuals over the components up to the exact
+ *                                                     rank (1e-12 / 1e-9 units, -1 = not applicable)
  *   Diverge{site,pc,it}                              iteration budget exhausted (the child is terminated)
- *   Returned{site,n}                                 a counter-bounded routine returned (n = objective evaluations for NM, else 0)
+ *   Returned{site,n,nc,iter}                         a counter-bounded routine returned (NM: n = objective evaluations, nc = dimension, iter = iteration cap passed;
+ *                                                     KMEANS: n = largest number of Lloyd iterations of the four initialisers seen through hook H6; MLRLOO: n = 0)
  *   Hang{site} / Crash{site,rc}                      watchdog fired / child died
+ *   Warm{site,n,passes}                              hist = 1: the n warm-up fits made `passes` NIPALS passes (counted against the budget, not logged)
+ *   Done also carries  bgap (CPCA: |cumulative block variance after the last defined component - 100 %| over the non-constant blocks, resp. |..| of a
+ *                      constant block, 1e-9 units)  and  hdev (hist = 1: output doubles differing from the fresh-process fit, else -1)
+ *   pred = 1 (outside the statement of C18): after Done the score predictor of the site is applied to the training data:
+ *   PredStart{site}                                  everything after this line is judged apart (EXTRA-FINDING only)
+ *   Pred{site,shape,nfw,nfb,dev}                     predicted scores: shape agrees, non-finite entries within / beyond the defined components, largest deviation
+ *                                                     from the model's own scores over the defined components (1e-12 units, relative to max(2^-sc, max|score|))
  */
 #include "scientific.h"
 #include "verif_rt.h"
+#include <time.h>
 
-#define MAXCELL 64
+#define MAXCELL 1024
+#define MAXPC 16
 typedef struct {
   long id; char site[16]; char kind[32];
   int scaling, npc_req, npc, rank, rlo, noise, cblk, ex, nr, nc, ny, nb;
+  int nproc, den, sc, offl, yex, yden, yoffl, hist, pred;
   long x[MAXCELL], y[MAXCELL]; int bw[8];
 } kase;
 
 static long budget = 1000000;
-static double VAR_ZERO = 1e-9;      /* explained variance (percent) at or below this is "zero": rounding noise is ~1e-28 */
+static double VAR_ZERO = 1e-9;      /* routing only (field `evals`): the verdict on a component's variance is TLC's (VarZeroQ in TraceNipals.tla, from `vx`) */
 
 /* ---------- hook H4: own callback (LVCalc reports the pass index, not the latent variable, in `comp`) ---------- */
 static const char *h_site = ""; static long h_pc = -1, h_it = 0, h_lv = -1;
+static int h_mute = 0; static long h_mute_it = 0;      /* warm-up fits of an in-process history: counted against the budget, not logged */
 static struct { int valid; long it; char a[8], b[8], c[8]; } pend;
 static void flush_pending(void){
   if(pend.valid){ VRT_EMIT("{\"e\":\"Iter\",\"site\":\"%s\",\"pc\":%ld,\"it\":%ld,\"a\":\"%s\",\"b\":\"%s\",\"conv\":\"%s\"}", h_site, h_pc, pend.it, pend.a, pend.b, pend.c); pend.valid = 0; }
@@ -44,6 +66,14 @@ static void fill_gap(const char *site, long from, long to){   /* components from
 static void iter_cb(const char *site, size_t comp, double a, double b, double conv){
   const char *s = !strcmp(site, "LVCalc") ? "PLS" : site;
   long c;
+  if(h_mute){
+    if(++h_mute_it >= budget){
+      VRT_EMIT("{\"e\":\"Diverge\",\"site\":\"%s\",\"pc\":-1,\"it\":%ld}", s, h_mute_it);
+      fflush(NULL);
+      _exit(97);
+    }
+    return;
+  }
   if(!strcmp(s, "PLS")){ if(comp == 0) h_lv++; c = h_lv; } else c = (long)comp;
   if(c != h_pc || strcmp(s, h_site)){
     flush_pending();
@@ -66,23 +96,70 @@ static void iter_cb(const char *site, size_t comp, double a, double b, double co
     _exit(97);
   }
 }
+/* ---------- hook H6: number of Lloyd iterations of KMeans() ---------- */
+static long km_maxit = 0;
+static void km_state(const char *site, size_t step, const void *a, const void *b, const void *c){
+  (void)a; (void)b; (void)c;
+  if(!strcmp(site, "KMeans") && (long)step > km_maxit) km_maxit = (long)step;
+}
 
-static double cell(const kase *k, int i, int j){ return ldexp((double)k->x[i * k->nc + j], -k->ex); }
-static double ycell(const kase *k, int i, int j){ return (double)k->y[i * k->ny + j]; }
+/* ---------- K7: the outputs of a fit as one flat array, to compare a fit made after other fits with the same fit made by a fresh process ---------- */
+static double *snap = NULL; static size_t nsnap = 0, capsnap = 0;
+static double *ref = NULL; static long nref = -1;          /* reference from the fresh grandchild; nref = -1: none */
+static void snap_push(double v){ if(nsnap == capsnap){ capsnap = capsnap ? 2 * capsnap : 4096; snap = realloc(snap, capsnap * sizeof(double)); if(!snap) _exit(3); } snap[nsnap++] = v; }
+static void snap_m(matrix *m){ snap_push((double)m->row); snap_push((double)m->col); for(size_t i = 0; i < m->row; i++) for(size_t j = 0; j < m->col; j++) snap_push(m->data[i][j]); }
+static void snap_v(dvector *v){ snap_push((double)v->size); for(size_t i = 0; i < v->size; i++) snap_push(v->data[i]); }
+static long snap_diff(void){      /* number of doubles whose bit patterns differ from the reference; -1: no reference asked for; -2: reference missing */
+  if(nref == -1) return -1;
+  if(nref < 0) return -2;
+  long d = (long)nsnap > nref ? (long)nsnap - nref : nref - (long)nsnap;
+  size_t n = (long)nsnap < nref ? nsnap : (size_t)nref;
+  for(size_t i = 0; i < n; i++) if(memcmp(&snap[i], &ref[i], sizeof(double))) d++;
+  return d;
+}
+
+static double cell(const kase *k, int i, int j){
+  double v = (double)k->x[i * k->nc + j];
+  if(k->den > 1) v /= (double)k->den;                 /* correctly rounded quotient of two small integers: the nearest double of num/den */
+  v = ldexp(v, -k->ex);
+  if(k->offl > 0) v += ldexp(1.0, k->offl) * (double)(1 + j % 3);   /* exact: |cell| < 2^21, offset <= 3 * 2^36 */
+  return v;
+}
+static double ycell(const kase *k, int i, int j){
+  double v = (double)k->y[i * k->ny + j];
+  if(k->yden > 1) v /= (double)k->yden;
+  v = ldexp(v, -k->yex);
+  if(k->yoffl > 0) v += ldexp(1.0, k->yoffl);
+  return v;
+}
 static int allfinite_col(matrix *m, size_t c){ for(size_t i = 0; i < m->row; i++) if(!vfinite(m->data[i][c])) return 0; return 1; }
 static int allfinite_m(matrix *m){ for(size_t i = 0; i < m->row; i++) for(size_t j = 0; j < m->col; j++) if(!vfinite(m->data[i][j])) return 0; return 1; }
 
-static void emit_done(const char *site, int n, const char **cls, int fin, long ortho, long recon, long vsum, long vgap, const char *bvar){
-  char buf[1024]; int p = 0;
+static long d_bgap = -1;      /* CPCA: |cumulative block variance after the last defined component - 100 %| over the non-constant blocks (1e-9 units) */
+static void emit_done(const char *site, int n, const char **cls, const long *vx, const int *nf, int fin, long ortho, long recon, long vsum, long vgap, const char *bvar){
+  char buf[2048]; int p = 0;
   p += snprintf(buf + p, sizeof(buf) - p, "{\"e\":\"Done\",\"site\":\"%s\",\"evals\":[", site);
   for(int i = 0; i < n; i++) p += snprintf(buf + p, sizeof(buf) - p, "%s\"%s\"", i ? "," : "", cls[i]);
-  p += snprintf(buf + p, sizeof(buf) - p, "],\"fin\":%d,\"ortho\":%ld,\"recon\":%ld,\"vsum\":%ld,\"vgap\":%ld,\"bvar\":\"%s\"}", fin, ortho, recon, vsum, vgap, bvar);
+  p += snprintf(buf + p, sizeof(buf) - p, "],\"vx\":[");
+  for(int i = 0; i < n; i++) p += snprintf(buf + p, sizeof(buf) - p, "%s%ld", i ? "," : "", vx[i]);
+  p += snprintf(buf + p, sizeof(buf) - p, "],\"nf\":[");
+  for(int i = 0; i < n; i++) p += snprintf(buf + p, sizeof(buf) - p, "%s%d", i ? "," : "", nf[i]);
+  p += snprintf(buf + p, sizeof(buf) - p, "],\"fin\":%d,\"ortho\":%ld,\"recon\":%ld,\"vsum\":%ld,\"vgap\":%ld,\"bgap\":%ld,\"hdev\":%ld,\"bvar\":\"%s\"}", fin, ortho, recon, vsum, vgap, d_bgap, snap_diff(), bvar);
   VRT_EMIT("%s", buf);
 }
+static void emit_shape(const char *site){
+  VRT_EMIT("{\"e\":\"Done\",\"site\":\"%s\",\"evals\":[],\"vx\":[],\"nf\":[],\"fin\":0,\"ortho\":-1,\"recon\":-1,\"vsum\":-1,\"vgap\":-1,\"bgap\":-1,\"hdev\":-1,\"bvar\":\"shape\"}", site);
+}
+/* classification of one returned component: vx / nf go to TLC, cls is the harness's own reading (routing) */
+static void classify(double ve, int finite, int c, const char **cls, long *vx, int *nf){
+  nf[c] = finite ? 0 : 1;
+  vx[c] = finite ? vq_unit(ve, 1e-12) : VQ_MAX;
+  cls[c] = !finite ? "nan" : (ve <= VAR_ZERO ? "zero" : "pos");
+}
 
-/* residual of X_c - sum_{k<m} t_k p_k' relative to max(1, max|X_c|) */
-static double recon_err(matrix *Xc, matrix *T, matrix *P, int m){
-  double mx = 1.0, err = 0.0;
+/* residual of X_c - sum_{k<m} t_k p_k' relative to max(2^-sc, max|X_c|) */
+static double recon_err(const kase *kc, matrix *Xc, matrix *T, matrix *P, int m){
+  double mx = ldexp(1.0, -kc->sc), err = 0.0;
   for(size_t i = 0; i < Xc->row; i++) for(size_t j = 0; j < Xc->col; j++){
     double v = Xc->data[i][j]; if(fabs(v) > mx) mx = fabs(v);
     for(int k = 0; k < m; k++) v -= T->data[i][k] * P->data[j][k];
@@ -98,83 +175,116 @@ static void centre(const kase *k, dvector *avg, dvector *scal, matrix *Xc){
   }
 }
 
-static int run_pca(const kase *k){
+/* ---- outside the statement of C18 (reported as EXTRA-FINDING, never a verdict): the score predictors applied to the training data.
+ * PredStart marks where the in-statement part of the block ends: whatever follows (Pred, or the Crash / Hang of the child) is judged apart. */
+static int want_pred = 0;
+static void emit_pred(const kase *k, const char *site, matrix *ps, matrix *sc, int ndef){
+  long nfw = 0, nfb = 0; double dev = 0, mx = ldexp(1.0, -k->sc);
+  int shape = (ps->row == sc->row && ps->col == sc->col);
+  if(shape){
+    for(size_t c = 0; c < sc->col && (int)c < ndef; c++) for(size_t i = 0; i < sc->row; i++) if(vfinite(sc->data[i][c]) && fabs(sc->data[i][c]) > mx) mx = fabs(sc->data[i][c]);
+    for(size_t c = 0; c < ps->col; c++) for(size_t i = 0; i < ps->row; i++){
+      double v = ps->data[i][c];
+      if(!vfinite(v)){ if((int)c < ndef) nfw++; else nfb++; }
+      else if((int)c < ndef){ double d = fabs(v - sc->data[i][c]); if(!(d <= dev)) dev = d; }
+    }
+  }
+  VRT_EMIT("{\"e\":\"Pred\",\"site\":\"%s\",\"shape\":%d,\"nfw\":%ld,\"nfb\":%ld,\"dev\":%ld}", site, shape, nfw, nfb, vq12(dev / mx));
+}
+
+static int run_pca(const kase *k, int mute){
   matrix *X; NewMatrix(&X, k->nr, k->nc);
   for(int i = 0; i < k->nr; i++) for(int j = 0; j < k->nc; j++) X->data[i][j] = cell(k, i, j);
   PCAMODEL *m; NewPCAModel(&m);
   PCA(X, k->scaling, (size_t)k->npc_req, m, NULL);
+  if(mute == 1){ DelPCAModel(&m); DelMatrix(&X); return 0; }
+  nsnap = 0; snap_m(m->scores); snap_m(m->loadings); snap_m(m->dmodx); snap_v(m->varexp); snap_v(m->colaverage); snap_v(m->colscaling);
+  if(mute == 2) return 0;
   flush_pending();
   int n = (int)m->scores->col;
   fill_gap("PCA", h_pc + 1, n);
-  const char *cls[16]; int fin = 1, npos = 0, prefix = 1;
-  if((int)m->varexp->size != n || (int)m->loadings->col != n){ VRT_EMIT("{\"e\":\"Done\",\"site\":\"PCA\",\"evals\":[],\"fin\":0,\"ortho\":-1,\"recon\":-1,\"vsum\":-1,\"vgap\":-1,\"bvar\":\"shape\"}"); return 0; }
+  const char *cls[MAXPC]; long vx[MAXPC]; int nf[MAXPC]; int fin = 1;
+  if((int)m->varexp->size != n || (int)m->loadings->col != n || n > MAXPC){ emit_shape("PCA"); return 0; }
   double vs = 0;
-  for(int c = 0; c < n && c < 16; c++){
+  for(int c = 0; c < n; c++){
     double ve = m->varexp->data[c];
     int f = vfinite(ve) && allfinite_col(m->scores, c) && allfinite_col(m->loadings, c) && allfinite_col(m->dmodx, c);
-    if(!f){ cls[c] = "nan"; fin = 0; }
-    else if(ve <= VAR_ZERO){ cls[c] = "zero"; }
-    else{ cls[c] = "pos"; if(npos != c) prefix = 0; npos++; }
-    if(f) vs += ve;
+    classify(ve, f, c, cls, vx, nf);
+    if(!f) fin = 0; else vs += ve;
   }
   long ortho = -1, recon = -1, vsum = -1, vgap = -1;
   if(fin){
+    /* identities of the regular case on the components that exist mathematically: the first k->rank (exact rank from TLC) */
+    int nd = k->rank < n ? k->rank : n;
     double o = 0;
-    for(int a = 0; a < npos && prefix; a++) for(int b = a; b < npos; b++){
+    for(int a = 0; a < nd; a++) for(int b = a; b < nd; b++){
       double d = 0; for(size_t j = 0; j < m->loadings->row; j++) d += m->loadings->data[j][a] * m->loadings->data[j][b];
-      d = fabs(d - (a == b ? 1.0 : 0.0)); if(d > o) o = d;
+      d = fabs(d - (a == b ? 1.0 : 0.0)); if(!(d <= o)) o = d;
     }
     ortho = vq12(o);
     vsum = vq9(vs > 100.0 ? (vs - 100.0) / 100.0 : 0.0);
-    if(prefix && npos == k->rank && k->rank > 0){
+    if(n >= k->rank && k->rank > 0){
       matrix *Xc; NewMatrix(&Xc, k->nr, k->nc); centre(k, m->colaverage, m->colscaling, Xc);
-      recon = vq12(recon_err(Xc, m->scores, m->loadings, npos));
+      recon = vq12(recon_err(k, Xc, m->scores, m->loadings, k->rank));
       vgap = vq9(fabs(vs - 100.0) / 100.0);
     }
   }
-  emit_done("PCA", n, cls, fin, ortho, recon, vsum, vgap, "fin");
+  emit_done("PCA", n, cls, vx, nf, fin, ortho, recon, vsum, vgap, "fin");
+  if(want_pred && fin && n > 0){
+    VRT_EMIT("{\"e\":\"PredStart\",\"site\":\"PCA\"}");
+    matrix *ps; initMatrix(&ps);
+    PCAScorePredictor(X, m, (size_t)n, ps);
+    emit_pred(k, "PCA", ps, m->scores, k->rank < n ? k->rank : n);
+  }
   return 0;
 }
 
-static int run_pls(const kase *k){
+static int run_pls(const kase *k, int mute){
   matrix *X, *Y; NewMatrix(&X, k->nr, k->nc); NewMatrix(&Y, k->nr, k->ny);
   for(int i = 0; i < k->nr; i++){ for(int j = 0; j < k->nc; j++) X->data[i][j] = cell(k, i, j); for(int j = 0; j < k->ny; j++) Y->data[i][j] = ycell(k, i, j); }
   PLSMODEL *m; NewPLSModel(&m);
   PLS(X, Y, (size_t)k->npc_req, k->scaling, 0, m, NULL);
+  if(mute == 1){ DelPLSModel(&m); DelMatrix(&X); DelMatrix(&Y); return 0; }
+  nsnap = 0; snap_m(m->xscores); snap_m(m->xloadings); snap_m(m->xweights); snap_m(m->yscores); snap_m(m->yloadings); snap_v(m->b); snap_v(m->xvarexp);
+  snap_m(m->recalculated_y); snap_m(m->recalc_residuals);
+  if(mute == 2) return 0;
   flush_pending();
   int n = (int)m->xscores->col;
   fill_gap("PLS", h_pc + 1, n);
-  const char *cls[16]; int fin = 1, npos = 0, prefix = 1;
-  if((int)m->xvarexp->size != n || (int)m->b->size != n){ VRT_EMIT("{\"e\":\"Done\",\"site\":\"PLS\",\"evals\":[],\"fin\":0,\"ortho\":-1,\"recon\":-1,\"vsum\":-1,\"vgap\":-1,\"bvar\":\"shape\"}"); return 0; }
-  double vs = 0;
-  for(int c = 0; c < n && c < 16; c++){
+  const char *cls[MAXPC]; long vx[MAXPC]; int nf[MAXPC]; int fin = 1;
+  if((int)m->xvarexp->size != n || (int)m->b->size != n || n > MAXPC){ emit_shape("PLS"); return 0; }
+  for(int c = 0; c < n; c++){
     double ve = m->xvarexp->data[c];
     int f = vfinite(ve) && vfinite(m->b->data[c]) && allfinite_col(m->xscores, c) && allfinite_col(m->xloadings, c) && allfinite_col(m->xweights, c)
             && allfinite_col(m->yscores, c) && allfinite_col(m->yloadings, c);
-    if(!f){ cls[c] = "nan"; fin = 0; }
-    else if(ve <= VAR_ZERO){ cls[c] = "zero"; }
-    else{ cls[c] = "pos"; if(npos != c) prefix = 0; npos++; }
-    if(f) vs += ve;
+    classify(ve, f, c, cls, vx, nf);
+    if(!f) fin = 0;
   }
   if(!allfinite_m(m->recalculated_y) || !allfinite_m(m->recalc_residuals)) fin = 0;
   long ortho = -1, recon = -1, vsum = -1, vgap = -1;
   if(fin){
-    double o = 0;   /* score orthogonality of the latent variables that exist mathematically (the first k->rank) */
-    int ndef = k->rank < npos ? k->rank : npos;
-    for(int a = 0; a < ndef && prefix; a++) for(int b = a + 1; b < ndef; b++){
+    double o = 0;   /* score orthogonality of the latent variables that exist mathematically (the first k->rlo: exact count resp. lower bound from TLC) */
+    int ndef = k->rlo < n ? k->rlo : n;
+    for(int a = 0; a < ndef; a++) for(int b = a + 1; b < ndef; b++){
       double d = 0, na = 0, nb = 0;
       for(size_t i = 0; i < m->xscores->row; i++){ d += m->xscores->data[i][a] * m->xscores->data[i][b]; na += m->xscores->data[i][a] * m->xscores->data[i][a]; nb += m->xscores->data[i][b] * m->xscores->data[i][b]; }
-      d = fabs(d) / sqrt(na * nb); if(d > o) o = d;
+      d = fabs(d) / sqrt(na * nb); if(!(d <= o)) o = d;
     }
     ortho = vq12(o);
-    vs = 0; for(int c = 0; c < ndef; c++) vs += m->xvarexp->data[c];   /* orthogonal scores: their variances add up to at most 100 % */
+    double vs = 0; for(int c = 0; c < ndef; c++) vs += m->xvarexp->data[c];   /* orthogonal scores: their variances add up to at most 100 % */
     vsum = vq9(vs > 100.0 ? (vs - 100.0) / 100.0 : 0.0);
   }
-  emit_done("PLS", n, cls, fin, ortho, recon, vsum, vgap, "fin");
+  emit_done("PLS", n, cls, vx, nf, fin, ortho, recon, vsum, vgap, "fin");
+  if(want_pred && fin && n > 0){
+    VRT_EMIT("{\"e\":\"PredStart\",\"site\":\"PLS\"}");
+    matrix *ps; initMatrix(&ps);
+    PLSScorePredictor(X, m, (size_t)n, ps);
+    emit_pred(k, "PLS", ps, m->xscores, k->rlo < n ? k->rlo : n);
+  }
   return 0;
 }
 
-static int run_cpca(const kase *k){
+static int run_cpca(const kase *k, int mute){
   tensor *t; NewTensor(&t, k->nb);
   int c0 = 0;
   for(int b = 0; b < k->nb; b++){
@@ -184,14 +294,19 @@ static int run_cpca(const kase *k){
   }
   CPCAMODEL *m; NewCPCAModel(&m);
   CPCA(t, k->scaling, (size_t)k->npc_req, m);
+  if(mute == 1){ DelCPCAModel(&m); DelTensor(&t); return 0; }
+  nsnap = 0; snap_m(m->super_scores); snap_m(m->super_weights); snap_v(m->total_expvar);
+  for(size_t b = 0; b < m->block_scores->order; b++) snap_m(m->block_scores->m[b]);
+  for(size_t b = 0; b < m->block_loadings->order; b++) snap_m(m->block_loadings->m[b]);
+  for(size_t b = 0; b < m->block_expvar->size; b++) snap_v(m->block_expvar->d[b]);
+  if(mute == 2) return 0;
   flush_pending();
   int n = (int)m->super_scores->col;
   fill_gap("CPCA", h_pc + 1, n);
-  const char *cls[16]; int fin = 1, npos = 0, prefix = 1; const char *bvar = "fin";
-  if((int)m->total_expvar->size != n || (int)m->block_expvar->size != n || (int)m->block_scores->order != n){
-    VRT_EMIT("{\"e\":\"Done\",\"site\":\"CPCA\",\"evals\":[],\"fin\":0,\"ortho\":-1,\"recon\":-1,\"vsum\":-1,\"vgap\":-1,\"bvar\":\"shape\"}"); return 0; }
+  const char *cls[MAXPC]; long vx[MAXPC]; int nf[MAXPC]; int fin = 1; const char *bvar = "fin";
+  if((int)m->total_expvar->size != n || (int)m->block_expvar->size != n || (int)m->block_scores->order != n || n > MAXPC){ emit_shape("CPCA"); return 0; }
   double vs = 0;
-  for(int c = 0; c < n && c < 16; c++){
+  for(int c = 0; c < n; c++){
     double ve = m->total_expvar->data[c];
     int f = vfinite(ve) && allfinite_col(m->super_scores, c) && allfinite_col(m->super_weights, c) && allfinite_m(m->block_scores->m[c]);
     for(size_t b = 0; b < m->block_loadings->order; b++) f = f && allfinite_col(m->block_loadings->m[b], c);
@@ -199,27 +314,45 @@ static int run_cpca(const kase *k){
       double bv = m->block_expvar->d[c]->data[b];
       if(!vfinite(bv)) bvar = "NaN"; else if(bv > 100.0 + 1e-6 || bv < -1e-6) bvar = "range";
     }
-    if(!f){ cls[c] = "nan"; fin = 0; }
-    else if(ve <= VAR_ZERO){ cls[c] = "zero"; }
-    else{ cls[c] = "pos"; if(npos != c) prefix = 0; npos++; }
-    if(f) vs += ve;
+    classify(ve, f, c, cls, vx, nf);
+    if(!f) fin = 0; else vs += ve;
   }
   long ortho = -1, recon = -1, vsum = -1, vgap = -1;
   if(fin){
-    double o = 0;   /* super weights of an extracted component have unit length */
-    for(int a = 0; a < npos && prefix; a++){
+    double o = 0;   /* super weights of a component that exists mathematically have unit length */
+    int nd = k->rank < n ? k->rank : n;
+    for(int a = 0; a < nd; a++){
       double d = 0; for(size_t j = 0; j < m->super_weights->row; j++) d += m->super_weights->data[j][a] * m->super_weights->data[j][a];
-      d = fabs(d - 1.0); if(d > o) o = d;
+      d = fabs(d - 1.0); if(!(d <= o)) o = d;
     }
     ortho = vq12(o);
     vsum = vq9(vs > 100.0 ? (vs - 100.0) / 100.0 : 0.0);
-    if(prefix && npos == k->rank && k->rank > 0) vgap = vq9(fabs(vs - 100.0) / 100.0);
+    if(n >= k->rank && k->rank > 0){
+      vgap = vq9(fabs(vs - 100.0) / 100.0);
+      /* once every defined component is out, each block that is not constant is explained completely (its residual is rounding residue) */
+      double g = 0; int c0b = 0;
+      for(int b = 0; b < k->nb; b++){
+        int cst = 1;
+        for(int j = 0; j < k->bw[b] && cst; j++) for(int i = 1; i < k->nr; i++) if(cell(k, i, c0b + j) != cell(k, 0, c0b + j)){ cst = 0; break; }
+        double bv = m->block_expvar->d[k->rank - 1]->data[b];
+        double d = cst ? fabs(bv) / 100.0 : fabs(bv - 100.0) / 100.0;
+        if(!(d <= g)) g = d;
+        c0b += k->bw[b];
+      }
+      d_bgap = vq9(g);
+    }
   }
-  emit_done("CPCA", n, cls, fin, ortho, recon, vsum, vgap, bvar);
+  emit_done("CPCA", n, cls, vx, nf, fin, ortho, recon, vsum, vgap, bvar);
+  if(want_pred && fin && n > 0){
+    VRT_EMIT("{\"e\":\"PredStart\",\"site\":\"CPCA\"}");
+    matrix *ps; initMatrix(&ps); tensor *pbs; initTensor(&pbs);
+    CPCAScorePredictor(t, m, (size_t)n, ps, pbs);
+    emit_pred(k, "CPCA", ps, m->super_scores, k->rank < n ? k->rank : n);
+  }
   return 0;
 }
 
-/* ---- routines without a NIPALS hook: watchdog only ---- */
+/* ---- routines without a NIPALS hook: watchdog (+ hook H6 for k-means) ---- */
 static int run_mlrloo(const kase *k){
   matrix *X, *Y, *py, *pr; NewMatrix(&X, k->nr, k->nc); NewMatrix(&Y, k->nr, k->ny);
   for(int i = 0; i < k->nr; i++){ for(int j = 0; j < k->nc; j++) X->data[i][j] = cell(k, i, j); for(int j = 0; j < k->ny; j++) Y->data[i][j] = ycell(k, i, j); }
@@ -227,22 +360,23 @@ static int run_mlrloo(const kase *k){
   MLR(X, Y, m, NULL);
   MODELINPUT in = initModelInput(); in.mx = X; in.my = Y; in.nlv = 0; in.xautoscaling = 0; in.yautoscaling = 0;
   initMatrix(&py); initMatrix(&pr);
-  LeaveOneOut(&in, _MLR_, py, pr, 1, NULL, 0);
-  VRT_EMIT("{\"e\":\"Returned\",\"site\":\"MLRLOO\",\"n\":0}");
+  LeaveOneOut(&in, _MLR_, py, pr, (size_t)k->nproc, NULL, 0);
+  VRT_EMIT("{\"e\":\"Returned\",\"site\":\"MLRLOO\",\"n\":%d,\"nc\":%d,\"iter\":0}", (py->row == (size_t)k->nr) ? 0 : -1, k->nc);
   return 0;
 }
 static int run_kmeans(const kase *k){
   matrix *X; NewMatrix(&X, k->nr, k->nc);
   for(int i = 0; i < k->nr; i++) for(int j = 0; j < k->nc; j++) X->data[i][j] = cell(k, i, j);
+  libsci_verif_state = km_state; km_maxit = 0;
   for(int init = 0; init <= 3; init++){
     uivector *lab; initUIVector(&lab);
     matrix *cen; initMatrix(&cen);
     srand_(12345 + (unsigned)k->id);
-    KMeans(X, (size_t)k->npc_req, init, lab, cen, 1);
-    if(lab->size != (size_t)k->nr){ VRT_EMIT("{\"e\":\"Returned\",\"site\":\"KMEANS\",\"n\":-1}"); return 0; }
-    for(size_t i = 0; i < lab->size; i++) if(lab->data[i] >= (size_t)k->npc_req){ VRT_EMIT("{\"e\":\"Returned\",\"site\":\"KMEANS\",\"n\":-1}"); return 0; }
+    KMeans(X, (size_t)k->npc_req, init, lab, cen, (size_t)k->nproc);
+    if(lab->size != (size_t)k->nr){ VRT_EMIT("{\"e\":\"Returned\",\"site\":\"KMEANS\",\"n\":-1,\"nc\":%d,\"iter\":0}", k->nc); return 0; }
+    for(size_t i = 0; i < lab->size; i++) if(lab->data[i] >= (size_t)k->npc_req){ VRT_EMIT("{\"e\":\"Returned\",\"site\":\"KMEANS\",\"n\":-1,\"nc\":%d,\"iter\":0}", k->nc); return 0; }
   }
-  VRT_EMIT("{\"e\":\"Returned\",\"site\":\"KMEANS\",\"n\":0}");
+  VRT_EMIT("{\"e\":\"Returned\",\"site\":\"KMEANS\",\"n\":%ld,\"nc\":%d,\"iter\":0}", km_maxit, k->nc);
   return 0;
 }
 static const kase *nm_case; static long nm_evals;
@@ -256,23 +390,90 @@ static int run_nm(const kase *k){
   nm_case = k; nm_evals = 0;
   size_t iter = (size_t)k->npc_req;
   double res = NelderMeadSimplex(nm_obj, x0, NULL, 1e-10, iter, best);
-  long cap = (k->nc + 1) + (long)iter * (k->nc + 3);
   (void)res;
-  VRT_EMIT("{\"e\":\"Returned\",\"site\":\"NM\",\"n\":%ld,\"cap\":%ld}", nm_evals, cap);
+  VRT_EMIT("{\"e\":\"Returned\",\"site\":\"NM\",\"n\":%ld,\"nc\":%d,\"iter\":%ld}", nm_evals, k->nc, (long)iter);
   return 0;
+}
+
+/* K7: the same routine on other data of the same shape, then on another shape, in this very process, before the case itself */
+static kase warm;
+static void warm_fill(const kase *k, int dr, int dc){
+  memcpy(&warm, k, sizeof(kase));
+  warm.nr = k->nr + dr; warm.nc = k->nc + dc; warm.ex = 0; warm.den = 1; warm.sc = 0; warm.offl = 0; warm.yex = 0; warm.yden = 1; warm.yoffl = 0;
+  warm.npc_req = 2;                     /* a dominant direction plus a little structure: few passes, so that the history costs little at nproc > 1 */
+  if(warm.nb > 0) warm.bw[warm.nb - 1] += dc;
+  for(int i = 0; i < warm.nr; i++) for(int j = 0; j < warm.nc; j++) warm.x[i * warm.nc + j] = (i + 1) * (j + 2) + ((i + 2 * j) % 3 == 0 ? 1 : 0);
+  for(int i = 0; i < warm.nr; i++) for(int j = 0; j < warm.ny; j++) warm.y[i * warm.ny + j] = (i + j) % 2;
+}
+static int run_site(const kase *k, int mute){
+  if(!strcmp(k->site, "PCA")) return run_pca(k, mute);
+  if(!strcmp(k->site, "PLS")) return run_pls(k, mute);
+  if(!strcmp(k->site, "CPCA")) return run_cpca(k, mute);
+  return 3;
 }
 
 static int child(void *arg){
   const kase *k = (const kase *)arg;
-  vrt_force_nproc(1);
-  libsci_verif_iter = iter_cb; h_site = ""; h_pc = -1; h_it = 0; h_lv = -1; pend.valid = 0;
-  if(!strcmp(k->site, "PCA")) return run_pca(k);
-  if(!strcmp(k->site, "PLS")) return run_pls(k);
-  if(!strcmp(k->site, "CPCA")) return run_cpca(k);
+  vrt_force_nproc((size_t)k->nproc);
+  want_pred = k->pred;
+  libsci_verif_iter = iter_cb; h_site = ""; h_pc = -1; h_it = 0; h_lv = -1; pend.valid = 0; h_mute = 0; h_mute_it = 0;
+  if(!strcmp(k->site, "PCA") || !strcmp(k->site, "PLS") || !strcmp(k->site, "CPCA")){
+    if(k->hist == 1 && (k->nr + 1) * (k->nc + 1) <= MAXCELL){
+      /* reference: the same fit in a process that has computed nothing before (grandchild, results through a pipe) */
+      int fd[2]; nref = -2;
+      if(pipe(fd) == 0){
+        fflush(NULL);
+        pid_t g = fork();
+        if(g == 0){
+          close(fd[0]); h_mute = 1; run_site(k, 2);
+          long n = (long)nsnap; if(write(fd[1], &n, sizeof n) != (ssize_t)sizeof n) _exit(4);
+          size_t off = 0, tot = nsnap * sizeof(double);
+          while(off < tot){ ssize_t w = write(fd[1], (char *)snap + off, tot - off); if(w <= 0) _exit(4); off += (size_t)w; }
+          _exit(0);
+        }
+        close(fd[1]);
+        if(g > 0){
+          long n = -2; size_t off = 0;
+          if(read(fd[0], &n, sizeof n) == (ssize_t)sizeof n && n >= 0){
+            ref = malloc((size_t)n * sizeof(double) + 8); size_t tot = (size_t)n * sizeof(double);
+            while(off < tot){ ssize_t r = read(fd[0], (char *)ref + off, tot - off); if(r <= 0) break; off += (size_t)r; }
+            nref = (off == tot) ? n : -2;
+          }
+          int st; waitpid(g, &st, 0);
+        }
+        close(fd[0]);
+      }
+      h_mute = 1;
+      warm_fill(k, 0, 0); run_site(&warm, 1);
+      warm_fill(k, 1, 1); run_site(&warm, 1);
+      h_mute = 0;
+      VRT_EMIT("{\"e\":\"Warm\",\"site\":\"%s\",\"n\":2,\"passes\":%ld}", k->site, h_mute_it);
+    }
+    return run_site(k, 0);
+  }
   if(!strcmp(k->site, "MLRLOO")) return run_mlrloo(k);
   if(!strcmp(k->site, "KMEANS")) return run_kmeans(k);
   if(!strcmp(k->site, "NM")) return run_nm(k);
   return 3;
+}
+
+/* fork + watchdog with a fine-grained poll (a fit on <= 3x3 data takes well under a millisecond; vrt_run_child polls every 5 ms) */
+static double now_s(void){ struct timespec ts; clock_gettime(CLOCK_MONOTONIC, &ts); return (double)ts.tv_sec + 1e-9 * (double)ts.tv_nsec; }
+static int run_child_fast(vrt_child_fn fn, void *arg, int timeout_s){
+  fflush(NULL);
+  pid_t pid = fork();
+  if(pid < 0){ perror("fork"); exit(2); }
+  if(pid == 0){ int rc = fn(arg); fflush(NULL); _exit(rc); }
+  int status = 0; double t0 = now_s();
+  for(;;){
+    pid_t r = waitpid(pid, &status, WNOHANG);
+    if(r == pid) break;
+    double el = now_s() - t0;
+    if(el > (double)timeout_s){ kill(pid, SIGKILL); waitpid(pid, &status, 0); return 124; }
+    usleep(el < 0.02 ? 100 : 2000);
+  }
+  if(WIFSIGNALED(status)) return 1000 + WTERMSIG(status);
+  return WEXITSTATUS(status);
 }
 
 int main(int argc, char **argv){
@@ -290,12 +491,15 @@ int main(int argc, char **argv){
     for(int i = 0; i < k.nr * k.ny; i++) if(fscanf(in, "%ld", &k.y[i]) != 1) return 2;
     if(fscanf(in, "%d", &k.nb) != 1 || k.nb > 8) return 2;
     for(int i = 0; i < k.nb; i++) if(fscanf(in, "%d", &k.bw[i]) != 1) return 2;
+    if(fscanf(in, "%d %d %d %d %d %d %d %d %d", &k.nproc, &k.den, &k.sc, &k.offl, &k.yex, &k.yden, &k.yoffl, &k.hist, &k.pred) != 9) return 2;
+    if(k.nproc < 1 || k.den < 1 || k.yden < 1 || k.offl > 36 || k.yoffl > 36){ fprintf(stderr, "bad case tail\n"); return 2; }
     ncases++;
-    char key[64]; snprintf(key, sizeof key, "%s:%s", k.site, k.kind);
+    char key[64]; snprintf(key, sizeof key, "%s:%s:%d", k.site, k.kind, k.nproc > 1);
     int di = -1; for(int i = 0; i < ndiv; i++) if(!strcmp(div[i].key, key)) di = i;
     if(di >= 0 && div[di].n >= maxdiv){ nskip++; continue; }
-    VRT_EMIT("{\"e\":\"Reset\",\"id\":%ld,\"site\":\"%s\",\"kind\":\"%s\",\"rank\":%d,\"rlo\":%d,\"npc\":%d,\"noise\":%d,\"cblk\":%d}", k.id, k.site, k.kind, k.rank, k.rlo, k.npc, k.noise, k.cblk);
-    int rc = vrt_run_child(child, &k, tmo);
+    VRT_EMIT("{\"e\":\"Reset\",\"id\":%ld,\"site\":\"%s\",\"kind\":\"%s\",\"rank\":%d,\"rlo\":%d,\"npc\":%d,\"noise\":%d,\"cblk\":%d,\"nproc\":%d,\"offl\":%d,\"sc\":%d,\"den\":%d,\"hist\":%d,\"nr\":%d,\"nc\":%d}",
+             k.id, k.site, k.kind, k.rank, k.rlo, k.npc, k.noise, k.cblk, k.nproc, k.offl > k.yoffl ? k.offl : k.yoffl, k.sc, k.den > k.yden ? k.den : k.yden, k.hist, k.nr, k.nc);
+    int rc = run_child_fast(child, &k, k.nproc > 1 ? 4 * tmo : tmo);   /* nproc threads per kernel call */
     nrun++;
     if(rc == 124) VRT_EMIT("{\"e\":\"Hang\",\"site\":\"%s\"}", k.site);
     else if(rc != 0 && rc != 97) VRT_EMIT("{\"e\":\"Crash\",\"site\":\"%s\",\"rc\":%d}", k.site, rc);
